@@ -42,6 +42,7 @@ L_RAISES = "C07.raises.none"
 L_D5 = "C07.raises.delay_unit_letter_case"          # D5
 L_DELAY_BAD = "C07.raises.delay_invalid_value"      # sibling of D5: an *invalid* Delay value/unit raises instead of being reported
 L_DELAY_NOCONV = "C07.raises.delay_unit_without_conversion"   # new: accepted unit with no conversion factor (month, year) raises
+L_SORTMIX = "C07.raises.numbered_column_issue_sort"   # new: header-less file, a row with a column-labelled and a column-less issue
 L_EQUAL = "C07.row.codes_equal_string"
 L_CELLS = "C07.row.cell_errors_reported"
 L_ROWLABEL = "C07.label.row"
@@ -413,6 +414,10 @@ def check_file(layout, rows, order, raise_label=L_RAISES, eq_label=L_EQUAL, temp
     res = []
     add = lambda clause, ok, obs=None, exp=None: res.append((clause, bool(ok), obs, exp))
     issues, err = validate_file(layout, file_rows)
+    if err is not None and not lay["header"] and err.startswith("TypeError: '<' not supported between instances of"):
+        # narrow label of a defect of its own: in a file without header row the columns are numbers; a row that has an issue
+        # labelled with its (integer) column and an issue without a column makes the final sorting of the issues raise
+        raise_label = L_SORTMIX
     add(raise_label, err is None, err, "a list of issues, no exception")
     if err is not None:
         return res, None
@@ -820,6 +825,12 @@ def edge_tables(w):
         rows = build_rows("hed1", [{"HED": "Red"}, {"HED": cell}, {"HED": "Blue"}], ONSETS)
         tables.append({"layout": "hed1", "rows": rows, "key": ("edge", cell),
                        "raise_label": L_DELAY_BAD if cell in DELAY_BAD else L_RAISES})
+    # minimal witnesses of L_SORTMIX and their passing neighbours: a style warning of a cell (column-labelled) next to an error
+    # that only the whole row has (no column), with and without header row
+    for layout, mk in (("sheet0", lambda a, b: {0: a, 2: b}), ("sheet2", lambda a, b: dict(A=a, B=b))):
+        for a, b in (("red", "Blue, Blue"), ("Red", "Blue, Blue"), ("red", "Blue"), ("red, red", NA)):
+            rows = build_rows(layout, [mk(a, b)], [None])
+            tables.append({"layout": layout, "rows": rows, "key": ("edge", layout, a, b)})
     return tables
 
 
@@ -891,6 +902,90 @@ def untimed_tables(w):
     return tables
 
 
+# ------------------------------------------------------------------------------------------------ undefined onsets between numeric ones
+BETWEEN_CELLS = ["Red", "Blue, (Green, Square)", "(Def/MyDef, Onset)", "(Def/MyDef, Offset)", "Red, Red", NA, "(Delay/2 s, (Green))",
+                 "(Def/Other, Onset, (Blue))", "(Duration/2 s, (Red))", "Blech", "(Def/Other, Offset)", "Green"]
+BETWEEN_UNDEFINED = [NA, "", "abc", "nan", "1,5"]
+BETWEEN_NUMERIC = ["0.5", "1.5", "2.25", "9.0", "10.125"]      # increasing as numbers, not as strings; + 2 s never meets another row
+
+
+def undefined_between_tables(w):
+    """3-5 rows; 0, 1 or 2 of them with an onset that is no number (n/a, empty, abc, nan, '1,5') at every choice of positions, the
+    others at increasing numeric onsets; seeded cell texts; every row permutation (quick: a seeded sample for 4 and 5 rows)"""
+    import random
+    rng = random.Random("%s/undefined-between" % w.seed)
+    tables = []
+    k = 0
+    for n in (3, 4, 5):
+        all_perms = [list(p) for p in itertools.permutations(range(n))]
+        for u in (0, 1, 2):
+            for pos in itertools.combinations(range(n), u):
+                for ci in range(2 if w.quick else 8):
+                    k += 1
+                    numeric = iter(BETWEEN_NUMERIC)
+                    onsets = [BETWEEN_UNDEFINED[(k + j) % len(BETWEEN_UNDEFINED)] if j in pos else next(numeric) for j in range(n)]
+                    layout = "tsv1" if k % 3 == 0 else "hed1"
+                    cells = rng.sample(BETWEEN_CELLS, n)
+                    if layout == "tsv1":
+                        cells = [("" if (c == NA and k % 2) else c) for c in cells]
+                    rows = build_rows(layout, [{"HED": c} for c in cells], onsets)
+                    perms = all_perms
+                    cap = {3: 6, 4: 12, 5: 14}[n] if w.quick else 120
+                    if len(perms) > cap:
+                        perms = [all_perms[0], all_perms[-1]] + rng.sample(all_perms[1:-1], cap - 2)
+                    tables.append({"layout": layout, "rows": rows, "key": ("between", n, pos, ci, layout), "perms": perms})
+    return tables
+
+
+# ------------------------------------------------------------------------------------------------ untimed rows, every spelling
+SPELL_MODES = ["long", "partial", "lower", "upper", "mixed", "long-upper", "partial-lower", "long-mixed"]
+SPELL_CELLS = ["(Duration/2 s, (Red))", "(Delay/1 s, (Blue))", "(Delay/500 ms, Duration/3 s, (Blue))", "(Def/MyDef, Onset)",
+               "(Def/MyDef, Offset)", "(Def/Other, Inset), Green", "(Def/Other, Onset, (Blue, Square))",
+               "((Def-expand/MyDef, (Green)), Onset)", "(Delay/2 s, Def/MyDef, Onset)",
+               "(Delay/2 s, (Red)), (Duration/3 ms, (Blue)), Green", "Duration/2 s", "(Red, (Duration/2 s, (Blue)))", "Onset",
+               # thorough only from here
+               "(Def/MyDef, Inset), (Def/Other, Offset)", "(Duration/2 seconds, (Def/MyDef, Red))", "(Delay/3 ms, Def/Other, Offset), Red"]
+
+
+def _spell_contexts(cell):
+    """(layout, row types, onsets, eq label): the cell on a row that has no usable time"""
+    return [
+        ("hed1", [{"HED": cell}], [NA], L_NAONSET),
+        ("tsv1", [{"HED": cell}], [""], L_NAONSET),
+        ("hed1", [{"HED": cell}], ["abc"], L_NAONSET),
+        ("hed1", [{"HED": "Red"}, {"HED": cell}], ["1.5", NA], L_NAONSET),
+        ("hed1", [{"HED": cell}, {"HED": "Blue"}], [NA, "2.25"], L_NAONSET),
+        ("hed0", [{"HED": cell}], [None], L_EQUAL),
+        ("hed0", [{"HED": "Red"}, {"HED": cell}, {"HED": NA}], [None] * 3, L_EQUAL),
+        ("sheet2", [dict(A=cell, B=NA)], [None], L_EQUAL),
+        ("sheet2", [dict(A="Green", B=cell), dict(A=NA, B="Red")], [None] * 2, L_EQUAL),
+        ("sheet0", [{0: cell, 2: "Blue"}], [None], L_EQUAL),
+    ]
+
+
+def untimed_spelling_tables(w):
+    """rows without a usable time whose temporal tags (and Def) are written as full path / partial path / in another letter case:
+    judged by the row oracle (one TEMPORAL_TAG_ERROR per temporal tag) and against the same file in canonical spelling"""
+    cells = SPELL_CELLS[:13] if w.quick else SPELL_CELLS
+    tables = []
+    k = 0
+    for ci, cell in enumerate(cells):
+        for mi, mode in enumerate(SPELL_MODES):
+            for xi, (layout, row_types, onsets, eq_label) in enumerate(_spell_contexts(cell)):
+                k += 1
+                if w.quick and (ci + mi + xi) % 3:
+                    continue
+                canon = build_rows(layout, row_types, onsets)
+                twin_types = [{c: (respell(v, mode) if v == cell else v) for c, v in rt.items()} for rt in row_types]
+                twin = build_rows(layout, twin_types, onsets)
+                if twin == canon:
+                    continue
+                tables.append({"layout": layout, "rows": twin, "key": ("spell", ci, mode, xi), "perms": [list(range(len(twin)))],
+                               "eq_label": eq_label, "temporal_label": None, "canon_rows": canon,
+                               "canon_label": L_CASE if mode in CASE_MODES else L_SPELL})
+    return tables
+
+
 # row types of the Delay part (canonical spelling).  Onsets 1.5 / 2.25 / 9.0 / 10.125 plus 2 s / 500 ms / 3 ms never meet
 # another row, so every shifted group is alone at its time point - except groups of ONE row with equal shifts.
 DELAY_POOL = [
@@ -913,6 +1008,7 @@ DELAY_POOL = [
     "(Delay/2 s, (Blue)), (Delay/3 ms, Duration/2 s, (Square)), (Delay/500 ms, (Square, Square))",
 ]
 CASE_MODES = ["lower", "upper", "mixed"]
+PATH_MODES = ["long", "partial-upper"]
 
 
 def delay_tables(w):
@@ -932,11 +1028,13 @@ def delay_tables(w):
         several = any(count_delay_groups(c) > 1 for c in cells)
         tables.append({"layout": "hed1", "rows": rows, "key": ("delay", tuple(rnd)),
                        "temporal_label": L_MULTI if several else L_TEMPORAL})
-        modes = CASE_MODES if (not w.quick or len(combo) < 3) else [CASE_MODES[no % 3]]
+        all_modes = CASE_MODES + PATH_MODES
+        modes = all_modes if not w.quick else (CASE_MODES + [PATH_MODES[no % 2]]) if len(combo) < 3 else [all_modes[no % 5]]
         for mode in modes:
             twin = build_rows("hed1", [{"HED": respell(c, mode)} for c in cells], ONSETS)
             tables.append({"layout": "hed1", "rows": twin, "key": ("delay", tuple(rnd), mode), "temporal_label": None,
-                           "canon_rows": rows})   # judged against the canonical table, which the temporal oracle judges
+                           "canon_rows": rows,    # judged against the canonical table, which the temporal oracle judges
+                           "canon_label": L_CASE if mode in CASE_MODES else L_SPELL})
     return tables
 
 
@@ -977,6 +1075,25 @@ def run(w: Workload):
            "over %s cell pairs; three-row files with the untimed temporal row first / middle / last%s" %
            (len(UNTIMED_CELLS[:12] if w.quick else UNTIMED_CELLS), "a third of the" if w.quick else "all",
             " (a quarter of the combinations)" if w.quick else ""), exhaustive=not w.quick, base_tables=len(ut2))
+    bt = undefined_between_tables(w)
+    bt.sort(key=lambda t: len(t["rows"]))
+    n = _absorb(w, _par(_chunks(bt, 6)), counters)
+    w.part("undefined-between", cases=n, bound="3-5 row files (DataFrame / TSV text) with 0, 1 or 2 onsets that are no number (n/a, '', "
+           "abc, nan, '1,5') at every choice of positions among increasing numeric onsets x %d seeded sets of cell texts out of %d "
+           "(plain, row-level error, cell-level error, Onset / Offset markers, Delay and Duration groups, n/a); %s row permutations: "
+           "row checks, same issues modulo row labels, out-of-order warning iff the numeric onsets step backwards in file order "
+           "(numeric onsets in order + an undefined onset: one warning, own label)" %
+           (2 if w.quick else 8, len(BETWEEN_CELLS), "all 6 / 12 sampled / 14 sampled" if w.quick else "ALL"),
+           exhaustive=not w.quick, base_tables=len(bt))
+    st = untimed_spelling_tables(w)
+    n = _absorb(w, _par(_chunks(st, 25)), counters)
+    w.part("untimed-spellings", cases=n, bound="%d cells with temporal tags (Duration / Delay groups, Onset / Offset / Inset with Def and "
+           "Def-expand, delayed onset, several groups, misplaced and bare temporal tags) x %d spellings of Def / Onset / Offset / Inset "
+           "/ Delay / Duration (full path, parent/name, lower, upper, mixed case and combinations) x 10 places without a usable time "
+           "(onset n/a / empty / abc alone and next to a timed row, events table without onset column, spreadsheets with and "
+           "without header)%s: row oracle (one TEMPORAL_TAG_ERROR per temporal tag) and equality with the canonical spelling" %
+           (len(SPELL_CELLS[:13] if w.quick else SPELL_CELLS), len(SPELL_MODES), " (quick: a third of the combinations)" if w.quick else ""),
+           exhaustive=not w.quick, base_tables=len(st))
     dt = delay_tables(w)
     dt.sort(key=lambda t: -len(t["rows"]))
     n = _absorb(w, list(reversed(_par(_chunks(dt, 6)))), counters)     # smallest tables first: minimal failure records
@@ -984,8 +1101,8 @@ def run(w: Workload):
            "unshifted and shifted by Delay 2 s / 500 ms / 3 ms / 2000 ms; rows with two or three Delay groups: different, equal, "
            "reordering shifts; errors only the full check of a shifted group finds)"
            + ("; 160 seeded sets of 3" if w.quick else "; all sets of 3") + "; ALL row permutations; each table also with Def, "
-           "Onset, Offset, Inset, Delay, Duration respelled in lower, upper and mixed case"
-           + (" (sets of 3: one of the three spellings)" if w.quick else ""), exhaustive=False, base_tables=len(dt))
+           "Onset, Offset, Inset, Delay, Duration respelled in lower, upper and mixed case, as full path and as upper-case parent/name"
+           + (" (quick: sets of 1-2 the three cases + one path form, sets of 3 one of the five spellings)" if w.quick else ""), exhaustive=False, base_tables=len(dt))
     ct = close_onset_tables(w)
     n = _absorb(w, _par(_chunks(ct, 6)), counters)
     w.part("close-onsets", cases=n, bound="%d onset bases (distinct onsets 1e-4 apart at 1000 .. 99999, 1e-6 apart at 10 / 64 / 99, "
@@ -1009,7 +1126,7 @@ def run(w: Workload):
                       "temporal oracle on tables with invalid rows or with Delay groups other than plain top-level "
                       "'(..., Delay/<number> s|ms, ...)' groups (only invariance and the bound 'extra TEMPORAL_TAG_ERROR <= "
                       "temporal groups of the row' are checked there)",
-                      "letter-case respelling of tags other than Def/Onset/Offset/Inset/Delay/Duration, and of unit names",
+                      "respelling (letter case, path form) of tags other than Def/Onset/Offset/Inset/Delay/Duration, and of unit names",
                       "warnings are compared only through shuffle invariance, not against string-level validation",
                       ".xlsx input; column_prefix_dictionary; missing/duplicate/blank column names; unknown column references",
                       "sidecar entries with curly-brace references (C06)"]
